@@ -536,6 +536,40 @@ fn more_programs() -> Vec<(String, String, String)> {
         out.push((format!("value-use-in-a-block;{}", bn), text, expected.to_string()));
     }
     // two packages with the same binder names, indices and closure types: each function runs its own closure
+    // twin files: two files that are the same text byte for byte except for one token inside a closure body, so
+    // every closure of the one sits at the offsets of a closure of the other (what is keyed by a place in a file
+    // must not be shared between files)
+    for (tn, tmpl, ops, expected) in [
+        ("returned-closure", "fn mk§(k: int32) -> (int32) -> int32 { |x: int32| x @ k }\n", ["+", "*"], "7\n12\n"),
+        ("closure-passed-on", "fn ap§(f: (int32) -> int32, a: int32) -> int32 { f(a) }\nfn mk§(k: int32) -> (int32) -> int32 { let g = |x: int32| x @ k; |y: int32| ap§(g, y) }\n", ["+", "*"], "7\n12\n"),
+        ("two-parameters", "fn mk§(k: int32) -> (int32) -> int32 { let g = |x: int32, y: int32| x @ y; |z: int32| g(z, k) }\n", ["+", "*"], "7\n12\n"),
+        ("no-captures", "fn mk§(k: int32) -> (int32) -> int32 { |x: int32| x @ 3 }\n", ["+", "*"], "7\n12\n"),
+        ("parameter-without-annotation", "fn mk§(k: int32) -> (int32) -> int32 { |x| x @ k }\n", ["+", "*"], "7\n12\n"),
+        ("parameter-without-annotation-passed-on", "fn ap§(f: (int32) -> int32, a: int32) -> int32 { f(a) }\nfn mk§(k: int32) -> (int32) -> int32 { |y| ap§(|x| x @ k, y) }\n", ["+", "*"], "7\n12\n"),
+        ("closure-in-a-match-arm", "fn mk§(k: int32) -> (int32) -> int32 { match k { 3 => |x: int32| x @ k, _ => |x: int32| x } }\n", ["+", "*"], "7\n12\n"),
+    ] {
+        // two packages with names of one length
+        let text = format!(
+            "package Main\nimport Aa\nimport Bb\n\nfn main() {{\n    string_println(int32_to_string((Aa::mk(3))(4)));\n    string_println(int32_to_string((Bb::mk(3))(4)))\n}}\n//// FILE Aa/lib.gom\npackage Aa\n\n{}//// FILE Bb/lib.gom\npackage Bb\n\n{}",
+            tmpl.replace('§', "").replace('@', ops[0]),
+            tmpl.replace('§', "").replace('@', ops[1])
+        );
+        out.push((format!("twin-files;two-packages;{}", tn), text, expected.to_string()));
+        // two files of one package, the functions named with one letter each
+        let text = format!(
+            "package Main\n\nfn main() {{\n    string_println(int32_to_string((mkp(3))(4)));\n    string_println(int32_to_string((mkq(3))(4)))\n}}\n//// FILE one.gom\npackage Main\n\n{}//// FILE two.gom\npackage Main\n\n{}",
+            tmpl.replace('§', "p").replace('@', ops[0]),
+            tmpl.replace('§', "q").replace('@', ops[1])
+        );
+        out.push((format!("twin-files;two-files-of-one-package;{}", tn), text, expected.to_string()));
+        // a library and a second file of Main
+        let text = format!(
+            "package Main\nimport Side\n\nfn main() {{\n    string_println(int32_to_string((mk(3))(4)));\n    string_println(int32_to_string((Side::mk(3))(4)))\n}}\n//// FILE more.gom\npackage Main\n\n{}//// FILE Side/lib.gom\npackage Side\n\n{}",
+            tmpl.replace('§', "").replace('@', ops[0]),
+            tmpl.replace('§', "").replace('@', ops[1])
+        );
+        out.push((format!("twin-files;second-file-and-library;{}", tn), text, expected.to_string()));
+    }
     for (pn, main_body, lib_body, expected) in [
         ("no-captures", "let f = |x: int32| x + 1; f(n)", "let f = |x: int32| x * 2; f(n)", "11\n20\n"),
         ("same-captures", "let k = 3; let f = |x: int32| x + k; f(n)", "let k = 3; let f = |x: int32| x * k; f(n)", "13\n30\n"),
@@ -604,7 +638,7 @@ impl Family for Closures {
         &["C08", "C01", "C02", "C03", "C04"]
     }
     fn rule(&self) -> &'static str {
-        "capture sets (all singles over {none, fn param, let, pattern variable, Ref cell, another closure, top-level fn, string let, function-typed parameter called in callee position only, local alias of a top-level fn called in callee position only}; selected pairs in quick, all pairs in thorough) x 27 flows of the closure value from creation to call (returned by a function directly, in a tuple, in a tuple nested two and three deep and in either position, in a tuple that a second function wraps in another; let, rebind, tuple element, nested tuple literal / tuple of a tuple-typed variable / tuple of a call result, struct field in first / second / third position, array element, Ref content, Vec element, returned from fn, returned from closure, argument, argument called twice, branch result of if/match, generic apply, …) x variants {plain, captured name shadowed after creation, captured Ref mutated from both sides, called twice} x nesting depth 1 (thorough: 1-2). plus 32 programs with closures inside a generic function instantiated at three types (captures: none / values whose types do not mention T / a value of type T; body: a trait call on the parameter in path or dot form, followed by a concatenation, used twice; one let-bound closure or two closures in one function). plus functions that return a closure: 3 functions (plain, generic, returning the result of a second such function) x 6 uses of the result (bound then called, called directly 'mk(3)(4)', two results, inside another closure, as a tuple element, in a loop) x 4 places of the function (before its caller, after it, in another file of the package, in an imported package), and 3 programs with a closure that returns a closure; 6 closures inside a generic function whose own signature does not mention the type parameter (only captures / callees do), at 3 types; 11 programs using one let-bound closure as a function value inside a block and again after it or in the sibling block (if, else, loop body / condition, match arms, another closure, a tuple built in a branch); 4 projects of two packages with the same binder names, indices and closure types but different bodies; 100 projects of two packages whose functions bind one spelling in 5 ways (literal, computed value, cell, tuple pattern, parameter; every ordered pair) with 0 or 1 binding before it, each closure capturing the binding of its own function; projects of several packages run through whole-program compilation and through build + link. non-trivial = programs whose closure captures at least one variable; distinct = distinct source text"
+        "capture sets (all singles over {none, fn param, let, pattern variable, Ref cell, another closure, top-level fn, string let, function-typed parameter called in callee position only, local alias of a top-level fn called in callee position only}; selected pairs in quick, all pairs in thorough) x 27 flows of the closure value from creation to call (returned by a function directly, in a tuple, in a tuple nested two and three deep and in either position, in a tuple that a second function wraps in another; let, rebind, tuple element, nested tuple literal / tuple of a tuple-typed variable / tuple of a call result, struct field in first / second / third position, array element, Ref content, Vec element, returned from fn, returned from closure, argument, argument called twice, branch result of if/match, generic apply, …) x variants {plain, captured name shadowed after creation, captured Ref mutated from both sides, called twice} x nesting depth 1 (thorough: 1-2). plus 32 programs with closures inside a generic function instantiated at three types (captures: none / values whose types do not mention T / a value of type T; body: a trait call on the parameter in path or dot form, followed by a concatenation, used twice; one let-bound closure or two closures in one function). plus functions that return a closure: 3 functions (plain, generic, returning the result of a second such function) x 6 uses of the result (bound then called, called directly 'mk(3)(4)', two results, inside another closure, as a tuple element, in a loop) x 4 places of the function (before its caller, after it, in another file of the package, in an imported package), and 3 programs with a closure that returns a closure; 6 closures inside a generic function whose own signature does not mention the type parameter (only captures / callees do), at 3 types; 11 programs using one let-bound closure as a function value inside a block and again after it or in the sibling block (if, else, loop body / condition, match arms, another closure, a tuple built in a branch); 4 projects of two packages with the same binder names, indices and closure types but different bodies; 21 projects of twin files (two packages / two files of one package / a second file and a library that are the same text except for one token in a closure body: 7 closure forms, parameters with and without annotations); 100 projects of two packages whose functions bind one spelling in 5 ways (literal, computed value, cell, tuple pattern, parameter; every ordered pair) with 0 or 1 binding before it, each closure capturing the binding of its own function; projects of several packages run through whole-program compilation and through build + link. non-trivial = programs whose closure captures at least one variable; distinct = distinct source text"
     }
     fn cases(&self, tier: Tier) -> Box<dyn Iterator<Item = Value> + '_> {
         let mut v = Vec::new();
